@@ -10,7 +10,7 @@ CONSTANTS
   AllowReset = FALSE
   AllowStop = FALSE
   AllowLoss = FALSE
-  Extra = {"CN", "HD", "Z1", "CL", "WI"}
+  Extra = {"CN", "HD", "Z1", "WI"}
   CloseKinds = {"localB", "endpointA", "endpointB"}
   Deviations = {}
 SPECIFICATION Spec
